@@ -4,13 +4,13 @@
  "file": "eval.c", "function": "eval", "also_functions": ["binary", "cast"],
  "properties": {"C04": "contract", "C19": "safety"},
  "mode": "harness",
- "unwind": 6,
- "variants": {"ident.add": ["-DV_ADDROF=0", "-DV_OP=TADD"], "ident.sub": ["-DV_ADDROF=0", "-DV_OP=TSUB"], "addrof.add": ["-DV_ADDROF=1", "-DV_OP=TADD"], "addrof.sub": ["-DV_ADDROF=1", "-DV_OP=TSUB"]},
- "canary_variant": "ident.sub",
+ "unwind": 3,
+ "variants": {"ident": ["-DV_ADDROF=0"], "addrof": ["-DV_ADDROF=1"]},
+ "canary_variant": "ident",
  "kind": "proof-const-unwind",
  "timeout": 120,
  "expects": ["assertion_verif"],
- "assumes": ["shape fixed by the harness: (P + C1) op C2, op in {+,-}, P = identifier of an object or &identifier  (real recursion, depth <= 4, --unwind 6 with unwinding assertions); harness-enforced, no DFCC frame check: the frame is stated as POST clauses on the nodes",
+ "assumes": ["shape fixed by the harness: (P + C1) op C2, op in {+,-}, P = identifier of an object or &identifier  (real recursion, depth <= 4, --unwind 3 with unwinding assertions; CBMC's value sets cannot tell which member of the union `u` of a node is live, so the symbolic execution also explores infeasible deeper calls that the SAT solver then refutes: that is what the time is spent on); harness-enforced, no DFCC frame check: the frame is stated as POST clauses on the nodes",
              "the pointer operand is the LEFT operand and both offsets are unsigned long constants: expr.c:mkbinaryexpr commutes `C + P` and builds the offset as (unsigned long)idx * sizeof(*P) before eval sees the node",
              "the address-constant value itself (symbol + offset) is emitted by qbe.c from this tree; that P + K denotes the run-time address is the backend's business"]
 }
@@ -46,15 +46,18 @@ struct decl *g_pd;
 	X(g_no_error == 1)
 
 #define NEWR (g_e->u.binary.r)
+#define KVAL (g_op0 == TADD ? spec_add(g_c1, g_c2, 8, 0) : spec_sub(g_c1, g_c2, 8, 0))
 #define POST(X) \
 	X(HRET == g_e) \
 	/* the node is now  P + K  with the SAME P ... */ \
 	X(g_e->kind == EXPRBINARY && g_e->op == TADD) \
 	X(g_e->u.binary.l == g_P) \
-	/* ... and K the constant C1 + C2, resp. C1 - C2, in unsigned long arithmetic */ \
-	X(NEWR != 0 && NEWR->kind == EXPRCONST && NEWR->type != 0 && T_IS_ULONG(NEWR->type)) \
-	X(IMP(g_op0 == TADD, NEWR->u.constant.u == spec_add(g_c1, g_c2, 8, 0))) \
-	X(IMP(g_op0 == TSUB, NEWR->u.constant.u == spec_sub(g_c1, g_c2, 8, 0))) \
+	/* ... and K a constant node holding C1 + C2, resp. C1 - C2, in unsigned long arithmetic.  The facts are stated on the \
+	   ghost pointers of the two constant nodes (K must be one of them: eval allocates nothing), not by dereferencing the \
+	   pointer read back from the union: CBMC's value sets lose track of pointers stored in `u` (CONVENTIONS 6) */ \
+	X(NEWR == g_C2 || NEWR == g_C1) \
+	X(IMP(NEWR == g_C2, (g_C2->kind == EXPRCONST && T_IS_ULONG(g_C2->type) && g_C2->u.constant.u == KVAL))) \
+	X(IMP(NEWR == g_C1, (g_C1->kind == EXPRCONST && T_IS_ULONG(g_C1->type) && g_C1->u.constant.u == KVAL))) \
 	/* P is untouched, the node keeps its pointer type */ \
 	X(g_P->kind == g_pkind0 && g_P->type->kind == TYPEPOINTER && g_e->type->kind == TYPEPOINTER) \
 	X(IMP(g_pkind0 == EXPRIDENT, g_P->u.ident.decl == g_pd)) \
@@ -70,13 +73,14 @@ harness(void)
 	static struct decl dd;
 	struct expr *expr = &ee;
 
-	/* the tree shape (operator, form of P) is a compile-time constant per variant: with a symbolic shape the symbolic
-	   execution of the doubly-recursive eval() explores every kind at every level and does not finish */
-	int in_op = V_OP;
+	/* the form of P is a compile-time constant per variant: with a symbolic shape the symbolic execution of the
+	   doubly-recursive eval() explores every kind at every level and does not finish */
+	IN(int, in_op);
 	bool in_addrof = V_ADDROF;       /* P is &x rather than an identifier of pointer type */
 	IN(u64, in_c1);
 	IN(u64, in_c2);
 
+	__CPROVER_assume(in_op == TADD || in_op == TSUB);
 	mk_type(&tobj, 0, TYPEINT, 4, 1);
 	mk_type(&tp, 2, 0, 8, 0); tp.base = &tobj;
 	mk_type(&tul, 0, TYPELONG, 8, 0);
